@@ -7,6 +7,7 @@ import (
 	"encoding/base64"
 	"encoding/json"
 	"fmt"
+	"github.com/trustbloc/sidetree-core-go/pkg/docutil"
 	"math/rand"
 	"reflect"
 	"sort"
@@ -299,6 +300,16 @@ func (c *c08) hashFunctions(kp *world.KeyPool, dids []*world.DID, tier string) {
 		var req model.CreateRequest
 		world.Must(json.Unmarshal(d.Create.Request, &req))
 		contents = append(contents, content{"suffix-data", req.SuffixData}, content{"delta", req.Delta})
+		// suffix data whose optional members hold values that a non-canonical JSON encoder writes differently
+		// (HTML characters, a small number, nested members in non-alphabetical order)
+		for oi, origin := range []interface{}{"https://a.example/?x=1&y=<2>", 1e-7, map[string]interface{}{"b": "<", "a": []interface{}{"&", 1e21}}, "\u2028"} {
+			sd := *req.SuffixData
+			sd.AnchorOrigin = origin
+			if oi%2 == 0 {
+				sd.Type = "R&D"
+			}
+			contents = append(contents, content{"suffix-data", &sd})
+		}
 	}
 	nr := 20
 	if tier == "thorough" {
@@ -397,6 +408,14 @@ func (c *c08) hashFunctions(kp *world.KeyPool, dids []*world.DID, tier string) {
 				d := base()
 				d["algs"] = algs
 				c.hcase("unique-suffix", emit.App("HSuffix", emit.Hex(canon), nlist(algs)), emit.App("HStr", optStr(s, e)), d, pan, e == nil)
+				// docutil.CalculateID is the same hash with the namespace in front
+				if e == nil && len(algs) > 0 {
+					id, ie := docutil.CalculateID("did:sidetree", sd, algs[0])
+					if ie != nil || id != "did:sidetree:"+s {
+						c.r.Direct = append(c.r.Direct, out.Direct{Oracle: "calculate_id_is_namespace_plus_unique_suffix",
+							What: fmt.Sprintf("CalculateID = %q (err %v), unique suffix = %q", id, ie, s), Case: d})
+					}
+				}
 			}
 		}
 		// value-only dependence: re-serialisations of the same JSON value
@@ -864,6 +883,14 @@ func runC08(c *ctx) error {
 		// distinct DIDs (two DIDs built from the same keys are the same DID, and "the other DID's state" would be no alteration)
 		for {
 			d := world.NewDID(kp, tb, x.rng, code)
+			if i%3 == 1 {
+				// an anchor origin that a normalising parser might touch (trailing slash, upper case, escapes): the suffix is
+				// the hash of the suffix data exactly as submitted
+				sp := d.Create.Spec
+				sp.Origin = []interface{}{"https://Origin.Example/path/", "https://origin.example/a%2Fb/"}[len(dids)%2]
+				d.Create = world.Build(sp)
+				d.Suffix = d.Create.UniqueSuffix
+			}
 			dup := false
 			for _, o := range dids {
 				if o.Suffix == d.Suffix {
